@@ -34,10 +34,10 @@ def run(ctx):
     ctx.rule('C06.a-sources', 'integer parameters of the result accessors are taint sources')
     for cfg in cfgs:
         facts = ctx.facts(cfg)
-        accessors(ctx, facts, cfg)
-        iterators(ctx, facts, cfg)
-        resetrules.check_reset_discipline(ctx, facts, cfg, 'C12.c-drop-resets', 'C12.c-implicit-reset-clears', 'C12.c-explicit-reset')
-        taint_part(ctx, facts, cfg)
+        ctx.guard('C12.analysable', accessors, ctx, facts, cfg)
+        ctx.guard('C12.analysable', iterators, ctx, facts, cfg)
+        ctx.guard('C12.analysable', resetrules.check_reset_discipline, ctx, facts, cfg, 'C12.c-drop-resets', 'C12.c-implicit-reset-clears', 'C12.c-explicit-reset')
+        ctx.guard('C12.analysable', taint_part, ctx, facts, cfg)
     ws = witness.run_witnesses(ctx.repo)
     n = 0
     for name, (ok, info) in sorted(ws.items()):
